@@ -7,18 +7,27 @@ from collections import Counter
 from .common import Ctx, Driver, rng_for
 
 MANIFEST = dict(
-    text=("Lean theorems, for every input and every codec oracle (codecs.lookup / strict decode / replace decode are parameters): "
+    text=("Lean theorems, for every input and every codec oracle (codecs.lookup / strict decode / replace decode / the chardet guess are parameters): "
           "the EncodingDetector.encodings generator with its mutable `tried` set yields exactly the documented candidate list "
-          "(known definite, BOM, user, declared, utf-8, windows-1252; minus excluded; each once ignoring case); UnicodeDammit's result is "
-          "the strict decoding of the BOM-stripped bytes under the first candidate that decodes, original_encoding its resolved codec "
-          "name; contains_replacement_characters iff no candidate decodes strictly and a non-ascii one decodes with replacement; BOM table; "
-          "str pass-through; UTF-8 default; every (codec, mode) attempted at most once; declared_html_encoding = the declaration found in "
-          "the BOM-stripped bytes (well-formed <meta charset>, <meta content> and <?xml encoding?> shapes proved; the general regex matcher "
-          "is validated by correspondence only). Tie: grid texts x codecs x BOMs x declarations x declared-name classes x "
-          "known/user/exclude/from_encoding arguments through the three entry points, real codecs tabulated per case."),
+          "(known definite, BOM, user, declared, chardet, utf-8, windows-1252; minus excluded; each once ignoring case; also for str markup); "
+          "UnicodeDammit's result is the strict decoding of the BOM-stripped bytes under the first candidate that decodes, original_encoding its "
+          "resolved codec name (find_codec spelled out); contains_replacement_characters iff no candidate decodes strictly and a non-ascii one "
+          "decodes with replacement, and which candidate wins that pass; the result always comes from a candidate; for lawful codecs (laws are "
+          "hypotheses, tested per case) a text always exists unless both last-ditch encodings are excluded and prepare_markup never rejects; "
+          "BOM table for every payload; str pass-through; UTF-8 whenever every present indication says UTF-8; every (codec, mode) attempted at most "
+          "once. Declaration regexes: the two patterns are DATA generated from the live sources through re._parser; Rx.search mirrors re's "
+          "backtracking on that fragment; PROVED: regex search over the generated patterns (bytes) = the hand-written matcher used by the model, "
+          "on every input; well-formed <meta charset>, <meta content>, <?xml encoding?> declarations inside the window are found (general shapes); "
+          "nothing is found without the markers; the result does not depend on anything after the window (both flavours). "
+          "Tie: grid texts x codecs x BOMs x declarations x declared-name classes x known/user/exclude/from_encoding/chardet arguments through "
+          "UnicodeDammit, EncodingDetector (bytes and str), prepare_markup and the BeautifulSoup constructor, real codecs tabulated per case; window "
+          "sweeps with an independent oracle; token soups (bytes, str); random patterns of the fragment versus Python's re; argument forms; history."),
     design="7/C07",
-    note=("Model mirrors the repaired code (fixes/C07-*.diff). chardet/charset_normalizer absent. Encoding names are ASCII. "
-          "smart_quotes_to=None. tried_encodings and warning texts are not compared."),
+    note=("Model mirrors the repaired code (fixes/C07-*.diff; encoding arguments are lists). The chardet step is a parameter (absent in this environment; "
+          "exercised through a stand-in module). Encoding names are ASCII. smart_quotes_to=None. tried_encodings and warning texts are not compared. "
+          "Outside the statement, observed only: bytearray/memoryview markup raises TypeError in find_declared_encoding (markup is typed bytes); a plain "
+          "str passed as exclude_encodings/known_definite_encodings is iterated character by character (the parameters are iterables of names). "
+          "Rx.search = CPython's re on the supported fragment is tied by the rx stream, not proved."),
     technique="Lean 4 refinement proof (generator/two-pass loop = documented meaning, for all codec oracles) + differential correspondence with real codecs + direct oracle",
 )
 
@@ -147,7 +156,8 @@ def gen_case(rng, stream):
         kind = rng.choice(["none", "meta-charset", "meta-content", "xml"])
         name, _ = pick_name(rng, "utf-8")
         c.update(markup_str=make_declaration(rng, kind, name) + "<p>" + text + "</p>" if rng.random() < 0.8 else text,
-                 is_html=rng.random() < 0.7, known=[pick_name(rng, "utf-8")[0]] if rng.random() < 0.5 else [], user=[], exclude=[], override=[])
+                 is_html=rng.random() < 0.7, known=[pick_name(rng, "utf-8")[0]] if rng.random() < 0.5 else [],
+                 user=[pick_name(rng, "utf-8")[0]] if rng.random() < 0.3 else [], exclude=[rng.choice(["utf-8", "UTF-8", "windows-1252", "koi8-r"])] if rng.random() < 0.3 else [], override=[])
         return c
     tkey = rng.choice(list(TEXTS))
     codec = rng.choice(CODECS) if rng.random() < 0.8 else rng.choice(["utf-8", "windows-1252", "latin-1", "utf-16-le", "shift_jis"])
@@ -207,6 +217,10 @@ def gen_case(rng, stream):
         user.append(rng.choice([known[0], known[0].upper(), known[0].swapcase()]))
     override = [pick_name(rng, codec)[0]] if rng.random() < 0.05 else []
     soup = is_html and not user and not override and len(known) <= 1 and len(markup) < 5000
+    if rng.random() < 0.12:
+        c["chardet"] = pick_name(rng, codec)[0] if rng.random() < 0.85 else rng.choice(["", "UTF-8", "Windows-1252", "ascii"])
+    c["builder"] = is_html and not override and len(known) <= 1 and len(user) <= 1 and len(markup) < 5000
+    c["ctor_style"] = rng.choice([0, 0, 0, 1, 3])
     c.update(markup_hex=markup.hex(), is_html=is_html, known=known, user=user, exclude=exclude, override=override, soup=soup,
              text=tkey, codec=codec, bom=bom, decl=kind, declname=dname, declclass=dclass)
     if have_truth:
@@ -260,10 +274,10 @@ def _decode(data, name, errors):
         return None
 
 
-def oracle_candidates(known, bomname, user, declared, exclude):
+def oracle_candidates(known, bomname, user, declared, exclude, chardet=None):
     ex = {e.lower() for e in exclude}
     seen, out = set(), []
-    for e in list(known) + ([bomname] if bomname else []) + list(user) + ([declared] if declared else []) + ["utf-8", "windows-1252"]:
+    for e in list(known) + ([bomname] if bomname else []) + list(user) + ([declared] if declared else []) + ([chardet] if chardet is not None else []) + ["utf-8", "windows-1252"]:
         k = e.lower()
         if k in ex or k in seen:
             continue
@@ -272,7 +286,7 @@ def oracle_candidates(known, bomname, user, declared, exclude):
     return out
 
 
-def oracle(markup, known, user, exclude, is_html, declared_of):
+def oracle(markup, known, user, exclude, is_html, declared_of, chardet=None):
     """Expected (text, original_encoding, declared_html_encoding, contains_replacement, candidates, winner index / pass)."""
     if isinstance(markup, str):
         return dict(text=markup, enc=None, decl=None, repl=False, cands=None, how="str")
@@ -280,8 +294,8 @@ def oracle(markup, known, user, exclude, is_html, declared_of):
     declared = declared_of(data)
     decl_html = declared if is_html else None
     if markup == b"":
-        return dict(text="", enc=None, decl=decl_html, repl=False, cands=oracle_candidates(known, bomname, user, declared, exclude), how="empty")
-    cands = oracle_candidates(known, bomname, user, declared, exclude)
+        return dict(text="", enc=None, decl=decl_html, repl=False, cands=oracle_candidates(known, bomname, user, declared, exclude, chardet), how="empty")
+    cands = oracle_candidates(known, bomname, user, declared, exclude, chardet)
     for i, c in enumerate(cands):
         r = oracle_resolve(c)
         if r is None:
@@ -326,6 +340,19 @@ def p_text(t) -> str:
     return ",".join(str(ord(ch)) for ch in t) if t else "-"
 
 
+LAW = Counter()   # per-process tally of the codec laws (`Lawful` of the Lean model) tested on real data
+
+
+def test_laws(data: bytes, names):
+    """The hypotheses of the totality theorems, tested on the real codecs with this case's data."""
+    for n in names:
+        if n:
+            LAW["law:lookup-ignores-case:" + ("ok" if _exists(n) == _exists(n.lower()) else "BROKEN")] += 1
+    for n in ("utf-8", "windows-1252"):
+        LAW[f"law:{n}-exists:" + ("ok" if _exists(n) else "BROKEN")] += 1
+        LAW[f"law:{n}-replace-total:" + ("ok" if _decode(data, n, "replace") is not None else "BROKEN")] += 1
+
+
 def codec_table(data: bytes, names):
     """exists / strict / replace for every name the model can ask about, for this case's BOM-stripped data."""
     from bs4.dammit import UnicodeDammit
@@ -350,6 +377,7 @@ def codec_table(data: bytes, names):
         if n == "":
             continue
         entries.append(f"{p_name(n)}|{1 if _exists(n) else 0}|{idx(_decode(data, n, 'strict'))}|{idx(_decode(data, n, 'replace'))}")
+    test_laws(data, sorted(need))
     tab = ";".join(entries) if entries else "-"
     txt = ";".join(p_name(t) for t in texts) if texts else "-"
     return tab, txt
@@ -385,13 +413,38 @@ def case_markup(c):
     return c["markup_str"] if "markup_str" in c else bytes.fromhex(c["markup_hex"])
 
 
+class _FakeChardet:
+    """Stand-in for chardet / cchardet / charset_normalizer: `detect(bytes)["encoding"]` is the case's `chardet` name.
+    Installed as bs4.dammit.chardet_module for the duration of a call, so the real `_chardet_dammit` runs."""
+    def __init__(self, name):
+        self.name = name
+
+    def detect(self, s):
+        assert isinstance(s, (bytes, bytearray)), "chardet consulted for a str"
+        return {"encoding": self.name, "confidence": 0.5}
+
+
+class chardet_as:
+    def __init__(self, c):
+        self.name = c.get("chardet")
+
+    def __enter__(self):
+        import bs4.dammit as bd
+        self.saved = bd.chardet_module
+        bd.chardet_module = _FakeChardet(self.name) if self.name is not None else None
+
+    def __exit__(self, *a):
+        import bs4.dammit as bd
+        bd.chardet_module = self.saved
+
+
 def real_dammit(c):
     from bs4.dammit import UnicodeDammit
     m = case_markup(c)
     kw = {}
     if c.get("override"):
         kw["override_encodings"] = list(c["override"])
-    with warnings.catch_warnings():
+    with warnings.catch_warnings(), chardet_as(c):
         warnings.simplefilter("ignore")
         d = UnicodeDammit(m, known_definite_encodings=list(c["known"]), is_html=c["is_html"], exclude_encodings=list(c["exclude"]),
                           user_encodings=list(c["user"]), **kw)
@@ -405,7 +458,7 @@ def real_detector(c):
     kw = {}
     if c.get("override"):
         kw["override_encodings"] = list(c["override"])
-    with warnings.catch_warnings():
+    with warnings.catch_warnings(), chardet_as(c):
         warnings.simplefilter("ignore")
         det = EncodingDetector(m, known_definite_encodings=list(c["known"]), is_html=c["is_html"], exclude_encodings=list(c["exclude"]),
                                user_encodings=list(c["user"]), **kw)
@@ -419,13 +472,38 @@ def real_soup(c):
     m = case_markup(c)
     fe = c["known"][0] if c["known"] else None
     del _FED[:]
-    with warnings.catch_warnings():
+    kw = {"from_encoding": fe}
+    style = c.get("ctor_style", 0)
+    if style == 1:      # the deprecated keyword alone
+        kw = {"fromEncoding": fe}
+    elif style == 3:    # empty from_encoding falls back to the deprecated keyword
+        kw = {"from_encoding": "", "fromEncoding": fe}
+    with warnings.catch_warnings(), chardet_as(c):
         warnings.simplefilter("ignore")
         try:
-            s = BeautifulSoup(m, "html.parser", from_encoding=fe, exclude_encodings=list(c["exclude"]) or None)
+            s = BeautifulSoup(m, "html.parser", exclude_encodings=list(c["exclude"]) or None, **kw)
         except ParserRejectedMarkup:
             return "rejected"
     return dict(text=_FED[-1] if _FED else None, enc=s.original_encoding, decl=s.declared_html_encoding, repl=s.contains_replacement_characters)
+
+
+def real_prepare(c):
+    """HTMLParserTreeBuilder.prepare_markup called directly, with the case's single user encoding as document_declared_encoding."""
+    from bs4.builder._htmlparser import HTMLParserTreeBuilder
+    from bs4.exceptions import ParserRejectedMarkup
+    m = case_markup(c)
+    fe = c["known"][0] if c["known"] else None
+    dd = c["user"][0] if c["user"] else None
+    with warnings.catch_warnings(), chardet_as(c):
+        warnings.simplefilter("ignore")
+        try:
+            out = list(HTMLParserTreeBuilder().prepare_markup(m, fe, dd, exclude_encodings=list(c["exclude"]) or None))
+        except ParserRejectedMarkup:
+            return "rejected"
+    if len(out) != 1:
+        return {"text": None, "enc": f"{len(out)} strategies", "decl": None, "repl": False}
+    t, e, d, r = out[0]
+    return dict(text=t, enc=e, decl=d, repl=r)
 
 
 def fmt_res(r):
@@ -459,7 +537,8 @@ def eval_case(c):
             return c["truth_declared"]
         return EncodingDetector.find_declared_encoding(data, is_html)
 
-    o = oracle(m, known_all, c["user"], c["exclude"], is_html, declared_of)
+    ch = c.get("chardet") if isinstance(m, bytes) else None
+    o = oracle(m, known_all, c["user"], c["exclude"], is_html, declared_of, ch)
     rd = real_dammit(c)
     for field in ("text", "enc", "repl", "decl"):
         if rd[field] != o[field]:
@@ -483,9 +562,9 @@ def eval_case(c):
         # the model: same request through code-mirror and spec
         real_decl = EncodingDetector.find_declared_encoding(stripped, is_html)
         light = bool(c.get("light"))   # long documents: only the byte-level ops go to the model (no codec table / decoded texts)
-        names = known_all + list(c["user"]) + BOM_NAMES + ["utf-8", "windows-1252", real_decl, c.get("truth_declared")]
+        names = known_all + list(c["user"]) + BOM_NAMES + ["utf-8", "windows-1252", real_decl, c.get("truth_declared"), ch]
         tab, txt = ("-", "-") if light else codec_table(stripped, names)
-        args = f"{1 if is_html else 0} {p_names(c['known'])} {p_names(c.get('override') or [])} {p_names(c['user'])} {p_names(c['exclude'])}"
+        args = f"{1 if is_html else 0} {p_names(c['known'])} {p_names(c.get('override') or [])} {p_names(c['user'])} {p_names(c['exclude'])} {p_opt(ch)}"
         mb = "b:" + (",".join(map(str, m)))
         lines.append(f"c07 dammit {mb} {args} {p_bytes(stripped)} {tab} {txt}")
         expect.append(fmt_res(rd) if not light else None)
@@ -502,24 +581,44 @@ def eval_case(c):
         lines.append(f"c07 declared {p_bytes(stripped)} {1 if is_html else 0}")
         expect.append(p_opt(real_decl))
         tags.append("declared")
+        lines.append(f"c07 declaredrx 0 {p_bytes(stripped)} {1 if is_html else 0} 0")
+        expect.append(p_opt(real_decl))
+        tags.append("declaredrx")
         lines.append(f"c07 bom {p_bytes(m)}")
         expect.append(f"{p_bytes(stripped)} {p_opt(sniffed)}" if not light else None)
         tags.append("bom")
         if c.get("soup"):
             rs = real_soup(c)
             fe = c["known"][0] if c["known"] else None
-            os_ = oracle(m, [fe] if fe else [], [], c["exclude"], True, declared_of)
+            style = c.get("ctor_style", 0)
+            fe_new, fe_old = {0: (fe, None), 1: (None, fe), 3: ("", fe)}[style]
+            fe = fe_new or fe_old     # what the documentation of the deprecated alias says: from_encoding, else fromEncoding
+            os_ = oracle(m, [fe] if fe else [], [], c["exclude"], True, declared_of, ch)
             want = "rejected" if os_["text"] is None else {k: os_[k] for k in ("text", "enc", "decl", "repl")}
             if rs != want:
                 viol.append(dict(what="BeautifulSoup constructor: decoded text / original_encoding / declared_html_encoding / contains_replacement_characters differ from the property statement",
                                  expected=short(want), observed=short(rs), stream=c["stream"] + "/soup"))
-            lines.append(f"c07 prepare {mb} {p_opt(fe)} {p_names(c['exclude'])} {p_bytes(stripped)} {tab} {txt}")
+            lines.append(f"c07 construct {mb} {p_opt(fe_new)} {p_opt(fe_old)} {p_names(c['exclude'])} {p_opt(ch)} {p_bytes(stripped)} {tab} {txt}")
             expect.append((("ok " + fmt_res(rs)) if rs != "rejected" else "rejected") if not light else None)
-            tags.append("prepare")
+            tags.append("construct")
+        if c.get("builder"):
+            # prepare_markup itself, with a document_declared_encoding (the builder API; the constructor never passes one)
+            rp = real_prepare(c)
+            fe = c["known"][0] if c["known"] else None
+            dd = c["user"][0] if c["user"] else None
+            op_ = oracle(m, [fe] if fe else [], [dd] if dd else [], c["exclude"], True, declared_of, ch)
+            want = "rejected" if op_["text"] is None else {k: op_[k] for k in ("text", "enc", "decl", "repl")}
+            if rp != want:
+                viol.append(dict(what="HTMLParserTreeBuilder.prepare_markup(markup, user_specified_encoding, document_declared_encoding, exclude_encodings) differs "
+                                      "from the property statement (user_specified = known definite, document_declared = user encoding)",
+                                 expected=short(want), observed=short(rp), stream=c["stream"] + "/builder"))
+            lines.append(f"c07 prepare {mb} {p_opt(fe)} {p_opt(dd)} {p_names(c['exclude'])} {p_opt(ch)} {p_bytes(stripped)} {tab} {txt}")
+            expect.append((("ok " + fmt_res(rp)) if rp != "rejected" else "rejected") if not light else None)
+            tags.append("prepare-builder")
     else:
         # str input: pass-through
         ms = "s:" + ",".join(str(ord(ch)) for ch in m)
-        args = f"{1 if is_html else 0} {p_names(c['known'])} - - -"
+        args = f"{1 if is_html else 0} {p_names(c['known'])} - - - none"
         lines.append(f"c07 dammit {ms} {args} - - -")
         expect.append(fmt_res(rd))
         tags.append("dammit-str")
@@ -528,9 +627,23 @@ def eval_case(c):
         if rs != want:
             viol.append(dict(what="BeautifulSoup constructor: str markup is not passed through untouched", expected=short(want), observed=short(rs),
                              stream=c["stream"] + "/soup"))
-        lines.append(f"c07 prepare {ms} {p_opt(c['known'][0] if c['known'] else None)} - - - -")
+        lines.append(f"c07 prepare {ms} {p_opt(c['known'][0] if c['known'] else None)} none - none - - -")
         expect.append("ok " + fmt_res(rs))
         tags.append("prepare-str")
+        # EncodingDetector on a str: no BOM, str flavour of the declaration patterns, chardet not consulted
+        from bs4.dammit import EncodingDetector as ED
+        with chardet_as({"chardet": "x-must-not-be-consulted"}):
+            try:
+                encs = list(ED(m, known_definite_encodings=list(c["known"]), is_html=is_html, exclude_encodings=list(c["exclude"]), user_encodings=list(c["user"])).encodings)
+            except AssertionError:
+                encs = ["<chardet consulted for a str>"]
+        want_e = oracle_candidates(c["known"], None, c["user"], ED.find_declared_encoding(m, is_html), c["exclude"])
+        if encs != want_e:
+            viol.append(dict(what="EncodingDetector(str).encodings differs from the documented candidate list", expected=want_e, observed=encs, stream=c["stream"] + "/detector-str"))
+        if all(ch_.lower() == "".join(chr(lo) for lo in [ord(x) + 32 if "A" <= x <= "Z" else ord(x) for x in ch_]) for ch_ in m):
+            lines.append(f"c07 encodingsstr {p_text(m) if m else '-'} {1 if is_html else 0} {p_names(c['known'])} - {p_names(c['user'])} {p_names(c['exclude'])}")
+            expect.append(p_names(encs))
+            tags.append("encodings-str")
     return viol, lines, expect, tags, o
 
 
@@ -543,6 +656,7 @@ def classify(c, o):
         if o.get("winner") is not None:
             sniffed = oracle_bom(bytes.fromhex(c["markup_hex"]))[1]
             srcs = ([("known", e) for e in c["known"] + (c.get("override") or [])] + ([("bom", sniffed)] if sniffed else []) + [("user", e) for e in c["user"]]
+                    + ([("chardet", c["chardet"])] if c.get("chardet") is not None and o.get("winner") == c.get("chardet") and not (o.get("cands") and c.get("truth_declared") == o.get("winner")) else [])
                     + [("fallback-utf8", "utf-8"), ("fallback-1252", "windows-1252")])
             src = next((s for s, e in srcs if e == o["winner"]), "declared")
             keys.append("winner:" + src)
@@ -599,6 +713,8 @@ def work(job):
         dist["model:" + t] += 1
         if e != r:
             dis.append(dict(case=c, op=t, real=e[:600], model=r[:600], line=l if len(l) < 4000 else l[:4000] + "...", had_violation=hadv))
+    dist.update(LAW)
+    LAW.clear()
     return dict(dist=dist, viols=viols, nontriv=nontriv, samples=samples, dis=dis, n=ncases)
 
 
@@ -684,6 +800,8 @@ def work_fixed(job):
         dist["model:" + t] += 1
         if e != r:
             dis.append(dict(case=c, op=t, real=e[:600], model=r[:600], line=l[:4000], had_violation=hadv))
+    dist.update(LAW)
+    LAW.clear()
     return dict(dist=dist, viols=viols, nontriv=nontriv, samples=[], dis=dis, n=len(cases))
 
 
@@ -788,6 +906,16 @@ def window_cases(seed, thorough):
                     c = window_case(rng, kind, e, e + rng.randint(60, 900), is_html)
                     if c:
                         out.append(c)
+        # dense sweep of the end offset around both boundaries (byte-level ops only: `light`)
+        for w in (1024, 2048):
+            for e in range(w - 48, w + 49):
+                for kind, is_html in (("meta", True), ("xml", False)) + ((("xml", True),) if e % 4 == 0 else ()):
+                    c = window_case(rng, kind, e, e + rng.randint(60, 400), is_html)
+                    if c:
+                        c["light"] = True
+                        c["soup"] = False
+                        c["builder"] = False
+                        out.append(c)
         # long documents: 5% of the length exceeds 2048 from 40 980 bytes on
         for total in (40940, 40979, 40980, 41000, 41020, 60000, 100000):
             w = max(2048, int(total * 0.05))
@@ -848,6 +976,121 @@ def declared_stream(seed, n):
             lines.append(f"c07 declared {p_bytes(s)} {1 if h else 0}")
             expect.append(p_opt(got))
             cases.append(dict(markup_hex=s.hex(), is_html=h, stream="declared-tokens"))
+            lines.append(f"c07 declaredrx 0 {p_bytes(s)} {1 if h else 0} 0")
+            expect.append(p_opt(got))
+            cases.append(dict(markup_hex=s.hex(), is_html=h, stream="declared-tokens", op="declaredrx"))
+            if len(s) < 4000:
+                got_all = EncodingDetector.find_declared_encoding(s, h, search_entire_document=True)
+                lines.append(f"c07 declaredrx 0 {p_bytes(s)} {1 if h else 0} 1")
+                expect.append(p_opt(got_all))
+                cases.append(dict(markup_hex=s.hex(), is_html=h, stream="declared-tokens", op="declaredrx", search_entire_document=True))
+    return lines, expect, cases, hits
+
+
+STR_TOKENS = ["<", ">", "?", "<?", "?>", "<?xml ", "meta", "META", " ", "\t", "\n", "\r", "charset", "CharSet", "=", "'", '"', "/", ";", "encoding=",
+              "ENCODING=", "utf-8", "x", "content=", "<meta ", "<meta charset=", "<?xml version='1.0' encoding='", "\x0b", "\x0c", "\x1c", "\x1f", "\x85",
+              "\xa0", "\u2003", "\u2028", "\u3000", "\u200b", "char\u017fet", "CHAR\u017fET", "encod\u0131ng=", "encod\u0130ng=", "ENCOD\u0130NG=", "\u212a",
+              "m\u0435ta", "\xe9", "Latin-1", "KOI8-R", "\u0130SO", "\u017f", "<\xa0meta\u2003", "\U0001d400", "\ud800"]
+
+
+def ascii_lower_model_to_python(reply: str) -> str:
+    """The model lower-cases ASCII letters only; Python's str.lower() is applied on top for comparison (equal on what the model already folded)."""
+    if reply in ("none", "bad-op") or reply == "e":
+        return reply
+    t = "".join(chr(int(x)) for x in reply.split("."))
+    return p_name(t.lower())
+
+
+def declared_str_stream(seed, n):
+    """find_declared_encoding on str documents (the str flavour of the two patterns: Unicode white space, Unicode case folding of the
+    literals) versus the regex engine of the model."""
+    from bs4.dammit import EncodingDetector
+    rng = rng_for(seed, "C07", "declared-str")
+    lines, expect, cases = [], [], []
+    hits = Counter()
+    for _ in range(n):
+        s = "".join(rng.choice(STR_TOKENS) for _ in range(rng.randint(0, 12)))
+        if rng.random() < 0.3:
+            s = (rng.choice(["", " ", "\u3000\n", "\x1c"]) + "<?xml version='1.0' " + "".join(rng.choice(STR_TOKENS) for _ in range(rng.randint(0, 2)))
+                 + rng.choice(["encoding=", "ENCOD\u0130NG=", "encod\u0131ng="]) + rng.choice(["'", '"']) + rng.choice(["utf-8", "Latin-1", "", "\u0130so"])
+                 + rng.choice(["'", '"', ""]) + rng.choice(["?>", "?", "?>\n"]) + s)
+        for h in (True, False):
+            for entire in (False, True):
+                got = EncodingDetector.find_declared_encoding(s, h, search_entire_document=entire)
+                hits["declared-str:" + ("hit" if got is not None else "miss")] += 1
+                lines.append(f"c07 declaredrx 1 {p_text(s) if s else '-'} {1 if h else 0} {1 if entire else 0}")
+                expect.append(p_opt(got))
+                cases.append(dict(markup_str=s, is_html=h, stream="declared-str", search_entire_document=entire))
+    return lines, expect, cases, hits
+
+
+RX_ITEMS = ["a", "e", "s", "i", "t", "<", ">", "=", " ", "\\n", '"', "\\?", ".", "\\s", "[ae]", "[^a]", "[^ae]", "[ \\s=]", "[^>]", "['\"]", "[^\\s<]"]
+RX_QUANT = ["", "", "", "*", "+", "?", "*?", "+?", "??"]
+RX_SUBJECT = ["a", "A", "e", "E", "s", "S", "i", "I", "t", "<", ">", "=", " ", "\n", '"', "?", "x", "\t", "'"]
+RX_SUBJECT_STR = RX_SUBJECT + ["\u017f", "\u0131", "\u0130", "\xa0", "\u2003", "\x1c", "\x85", "\xe9"]
+
+
+def rx_stream(seed, n):
+    """The regex engine of the model against Python's `re` on random patterns of the supported fragment (not only the two of dammit.py):
+    re.I, bytes and str flavours, random endpos. Ties `Rx.search` to the `re` semantics it mirrors."""
+    import re
+    import sys
+    sys.path.insert(0, os.path.join(os.path.dirname(os.path.dirname(os.path.abspath(__file__))), "translate"))
+    from parts_c07 import rx_atoms
+    rng = rng_for(seed, "C07", "rx")
+
+    def enc_cls(c):
+        if c[0] == "lit":
+            return f"L{c[1]}"
+        if c[0] == "notLit":
+            return f"N{c[1]}"
+        if c[0] == "any":
+            return "A"
+        if c[0] == "space":
+            return "S"
+        return f"O{1 if c[2] else 0}{1 if c[3] else 0}," + (".".join(map(str, c[1])) if c[1] else "-")
+
+    def enc_atom(a):
+        if a[0] == "gopen":
+            return "("
+        if a[0] == "gclose":
+            return ")"
+        if a[0] == "one":
+            return "1/" + enc_cls(a[1])
+        return f"r{1 if a[2] else 0}{1 if a[3] else 0}{1 if a[4] else 0}/" + enc_cls(a[1])
+    lines, expect, cases = [], [], []
+    hits = Counter()
+    while len(lines) < n:
+        k = rng.randint(1, 6)
+        items = [rng.choice(RX_ITEMS) + rng.choice(RX_QUANT) for _ in range(k)]
+        if rng.random() < 0.7:
+            i = rng.randint(0, k - 1)
+            j = rng.randint(i, k - 1)
+            items[i] = "(" + items[i]
+            items[j] = items[j] + ")"
+        src = ("^" if rng.random() < 0.25 else "") + "".join(items)
+        try:
+            anchored, atoms = rx_atoms(src, re.I)
+            cu = re.compile(src, re.I)
+            cb = re.compile(src.encode("ascii"), re.I)
+        except (ValueError, re.error):
+            continue
+        pat = ";".join(enc_atom(a) for a in atoms)
+        for _ in range(4):
+            flavor = rng.choice("bs")
+            subj = "".join(rng.choice(RX_SUBJECT if flavor == "b" else RX_SUBJECT_STR) for _ in range(rng.randint(0, 9)))
+            endpos = rng.choice([len(subj), len(subj), rng.randint(0, len(subj) + 1)])
+            if flavor == "b":
+                m = cb.search(subj.encode("latin-1"), endpos=endpos)
+                got = None if m is None else (m.group(1) if cb.groups else b"")
+                got = None if m is None else ("" if got is None else got.decode("latin-1"))
+            else:
+                m = cu.search(subj, endpos=endpos)
+                got = None if m is None else ((m.group(1) or "") if cu.groups else "")
+            hits["rx:" + ("hit" if m is not None else "miss")] += 1
+            lines.append(f"c07 rx {flavor} {1 if anchored else 0} {pat} {p_text(subj)} {endpos}")
+            expect.append(p_text(got))
+            cases.append(dict(pattern=src, flavor=flavor, subject=subj, endpos=endpos, stream="rx"))
     return lines, expect, cases, hits
 
 
@@ -898,7 +1141,19 @@ def history_stream(ctx):
                 list(EncodingDetector(markup, **{k: v for k, v in kw.items() if k in ("known_definite_encodings", "user_encodings", "exclude_encodings", "is_html")}).encodings),
                 soup.original_encoding, soup.decode())
 
+    _obs = obs
+
+    def obs(markup, kw):   # noqa: F811 - guarded version: an exception is an observation too
+        try:
+            return _obs(markup, kw)
+        except Exception as e:   # noqa: BLE001
+            return ("<raised>", type(e).__name__, str(e)[:200], None, None, None, None)
     before = [obs(m, kw) for m, kw in refs]
+    for (m, kw), a in zip(refs, before):
+        if a[0] == "<raised>":
+            ctx.violation(f"history: a plain reference call raised {a[1]}: {a[2]} (every reference input decodes under utf-8 or windows-1252; "
+                          "an earlier call in this process must have left state behind)", case={"history": [], "markup": repr(m), "kwargs": dict(kw)},
+                          expected="a decoded text", observed=f"{a[1]}: {a[2]}", stream="history")
     own = {"known": ["iso-8859-8"], "user": ["iso-8859-1"], "excl": ["utf-8"], "over": ["iso-8859-8", "iso-8859-1"]}
     polluters = [
         ("override_encodings alias", lambda: UnicodeDammit(b"abc", override_encodings=own["over"])),
@@ -939,6 +1194,64 @@ def history_stream(ctx):
     ctx.count("history:polluters", len(polluters))
 
 
+def forms_stream(ctx):
+    """Argument forms: `_Encodings` is `Iterable[str]`, so lists, tuples, iterators and generators are all legal for known_definite /
+    user / exclude / override encodings. The outcome must not depend on the container, and `EncodingDetector.encodings` must give the
+    same list each time it is read."""
+    from bs4.dammit import UnicodeDammit, EncodingDetector
+    rng = ctx.rng("forms")
+    forms = {"tuple": tuple, "iterator": iter, "generator": lambda l: (x for x in l)}
+    cases = [dict(markup_hex=b"\x81\x00\x81".hex(), is_html=False, known=[], user=["utf-16le"], exclude=[], override=[], stream="forms"),
+             dict(markup_hex=b"\x81\x00\x81".hex(), is_html=True, known=["utf-16le"], user=["utf-32"], exclude=["UTF-8"], override=["utf-16be"], stream="forms"),
+             dict(markup_hex=b"abc".hex(), is_html=False, known=[], user=["koi8-r"], exclude=[], override=[], stream="forms")]
+    while len(cases) < ctx.n(250, 2500):
+        c = gen_case(rng, rng.choice(["grid", "malformed"]))
+        if (c["known"] or c["user"] or c["exclude"] or c["override"]) and len(c["markup_hex"]) < 4000:
+            c["stream"] = "forms"
+            c.pop("chardet", None)
+            cases.append(c)
+
+    def run(c, conv):
+        m = case_markup(c)
+        kw = dict(known_definite_encodings=conv(c["known"]), user_encodings=conv(c["user"]), exclude_encodings=conv(c["exclude"]), is_html=c["is_html"])
+        if c.get("override"):
+            kw["override_encodings"] = conv(c["override"])
+        with warnings.catch_warnings():
+            warnings.simplefilter("ignore")
+            d = UnicodeDammit(m, **kw)
+            kw2 = dict(known_definite_encodings=conv(c["known"]), user_encodings=conv(c["user"]), exclude_encodings=conv(c["exclude"]), is_html=c["is_html"])
+            if c.get("override"):
+                kw2["override_encodings"] = conv(c["override"])
+            det = EncodingDetector(m, **kw2)
+            first, second = list(det.encodings), list(det.encodings)
+        return dict(text=d.unicode_markup, enc=d.original_encoding, repl=d.contains_replacement_characters, decl=d.declared_html_encoding,
+                    encodings=first, encodings_again=second)
+
+    for c in cases:
+        try:
+            base = run(c, list)
+        except Exception as e:   # noqa: BLE001
+            ctx.violation(f"argument forms: list arguments raised {type(e).__name__}: {e}", case=c, stream="forms")
+            continue
+        ctx.case(("forms", c["markup_hex"][:40], tuple(c["known"]), tuple(c["user"]), tuple(c["exclude"])))
+        if base["encodings"] != base["encodings_again"]:
+            ctx.violation("EncodingDetector.encodings gives a different list when read a second time", case=c, expected=base["encodings"],
+                          observed=base["encodings_again"], stream="forms")
+        for fname, conv in forms.items():
+            ctx.count("forms:" + fname)
+            try:
+                got = run(c, conv)
+            except Exception as e:   # noqa: BLE001
+                ctx.violation(f"argument forms: {fname} arguments raised {type(e).__name__}: {e}", case=c | {"form": fname}, stream="forms")
+                continue
+            if got != base:
+                field = next(k for k in base if got[k] != base[k])
+                ctx.violation(f"the outcome depends on the container type of the encoding arguments: with {fname}s instead of lists, {field} differs "
+                              "(a one-shot iterable is exhausted by the first pass / first read)", case=c | {"form": fname},
+                              expected=short(base) | {"encodings": base["encodings"], "encodings_again": base["encodings_again"]},
+                              observed=short(got) | {"encodings": got["encodings"], "encodings_again": got["encodings_again"]}, stream="forms")
+
+
 def run(ctx: Ctx):
     import multiprocessing as mp
     import bs4.dammit as bd
@@ -946,7 +1259,11 @@ def run(ctx: Ctx):
                 "known_definite/override/user/exclude/is_html arguments, run through UnicodeDammit, EncodingDetector.encodings and (when the arguments can be "
                 "expressed there) the BeautifulSoup constructor; non-trivial = the result is not simply 'first candidate utf-8 decodes': a later candidate wins, "
                 "or a non-utf-8 candidate wins, or the replace pass / rejection is reached")
-    ctx.assumptions = ["no chardet / cchardet / charset_normalizer installed (chardet_module is None) — that step of the documented order is absent",
+    ctx.assumptions = ["no chardet / cchardet / charset_normalizer is installed; the chardet step of the order is exercised through a stand-in module "
+                       "assigned to bs4.dammit.chardet_module for the duration of a call (12% of the grid cases)",
+                       "Rx.search (Lean) = CPython's re on the supported fragment: tied by the rx stream (random patterns x subjects, bytes and str), not proved",
+                       "the codec laws the totality theorems assume (lookup ignores case; utf-8 / windows-1252 exist and decode with errors='replace' "
+                       "without failing) are tested on every case's data (distribution keys law:*)",
                        "encoding names are ASCII strings (str.lower() is modelled on ASCII letters)",
                        "smart_quotes_to=None (the substitution hook of _convert_from is property C19's)",
                        "int(len(markup) * 0.05) = len(markup) // 20 for the document sizes used",
@@ -957,6 +1274,7 @@ def run(ctx: Ctx):
         bd.chardet_module = None
     _patch_feed()
     history_stream(ctx)
+    forms_stream(ctx)
     # corpus first
     corpus_dir = os.path.join(os.path.dirname(os.path.dirname(os.path.abspath(__file__))), "corpus", "C07")
     corpus = []
@@ -1012,6 +1330,9 @@ def run(ctx: Ctx):
                 continue
             ctx.violation(f"model and implementation disagree ({d['op']})", case=d["case"] | {"op": d["op"], "line": d["line"]}, observed=d["real"],
                           model=d["model"], stream=d["case"].get("stream", "") + "/model", no_failing_input=True)
+    broken = {k: v for k, v in ctx.dist.items() if k.startswith("law:") and k.endswith("BROKEN")}
+    if broken:
+        ctx.notes.append(f"codec laws assumed by the totality theorems (Lawful) do NOT hold for the installed codecs on some case: {broken}")
     # the two small exhaustive / regex-only streams, in this process
     drv = Driver()
     lines, expect, cases, hits = declared_stream(ctx.seed, ctx.n(20000, 200000))
@@ -1024,6 +1345,24 @@ def run(ctx: Ctx):
             ctx.corr_disagreements += 1
             ctx.violation("model and implementation disagree (find_declared_encoding on a token soup)", case=c | {"line": l[:2000]}, observed=e, model=r,
                           stream="declared-tokens/model", no_failing_input=True)
+    lines, expect, cases, hits = declared_str_stream(ctx.seed, ctx.n(3000, 30000))
+    for k, v in hits.items():
+        ctx.count(k, v)
+    for l, e, r, c in zip(lines, expect, drv.ask(lines), cases):
+        ctx.case(None)
+        if e != ascii_lower_model_to_python(r):
+            ctx.corr_disagreements += 1
+            ctx.violation("model and implementation disagree (find_declared_encoding on a str document)", case=c | {"line": l[:2000]}, observed=e, model=r,
+                          stream="declared-str/model", no_failing_input=True)
+    lines, expect, cases, hits = rx_stream(ctx.seed, ctx.n(20000, 200000))
+    for k, v in hits.items():
+        ctx.count(k, v)
+    for l, e, r, c in zip(lines, expect, drv.ask(lines), cases):
+        ctx.case(None)
+        if e != r:
+            ctx.corr_disagreements += 1
+            ctx.violation("the model's regex engine and Python's re disagree (semantics of the supported fragment)", case=c | {"line": l[:2000]}, observed=e, model=r,
+                          stream="rx/model", no_failing_input=True)
     lines, expect, cases = bom_probe_stream()
     ctx.exhaustive_parts.append(f"strip_byte_order_mark: all {len(lines)} byte strings of length <= 5 over {{00,fe,ff,ef,bb,bf,61}}")
     for l, e, r, c in zip(lines, expect, drv.ask(lines), cases):
@@ -1044,9 +1383,25 @@ def run(ctx: Ctx):
 def replay(path):
     v = json.load(open(path))
     c = v["case"]
+    _patch_feed()
     if "is_html" not in c or ("markup_hex" not in c and "markup_str" not in c):
         print(json.dumps(v, indent=1)[:3000])
         return 1
+    if c.get("stream") == "forms":
+        from bs4.dammit import UnicodeDammit, EncodingDetector
+        conv = {"tuple": tuple, "iterator": iter, "generator": lambda l: (x for x in l)}.get(c.get("form"), list)
+        m = case_markup(c)
+        out = []
+        for cv in (list, conv):
+            with warnings.catch_warnings():
+                warnings.simplefilter("ignore")
+                d = UnicodeDammit(m, known_definite_encodings=cv(c["known"]), user_encodings=cv(c["user"]), exclude_encodings=cv(c["exclude"]), is_html=c["is_html"])
+                det = EncodingDetector(m, known_definite_encodings=cv(c["known"]), user_encodings=cv(c["user"]), exclude_encodings=cv(c["exclude"]), is_html=c["is_html"])
+                out.append((d.unicode_markup, d.original_encoding, d.contains_replacement_characters, list(det.encodings), list(det.encodings)))
+        print("markup:", repr(m)[:200], " arguments:", {k: c[k] for k in ("known", "user", "exclude", "is_html")})
+        print("with lists:        ", out[0])
+        print(f"with {c.get('form', 'list')}s:", out[1])
+        return 0 if out[0] == out[1] and out[0][3] == out[0][4] else 1
     if c.get("stream") in ("bom-exhaustive",):
         from bs4.dammit import EncodingDetector
         b = bytes.fromhex(c["markup_hex"])
